@@ -49,7 +49,12 @@ func runC09(c *core.Ctx, r *core.Result) {
 	// the same search without rolling averages (2.0.2 era): everything else a restart could disturb (holding table,
 	// grading bookkeeping, start-up migrations), with the known window finding out of the picture
 	c09Explore(c, r, 4, depth-1, drive.StV202)
+	// the window crosses the 2.0.2, 2.0.4, mint-burn and PIP-10 activations, every block also carrying a transfer to the
+	// burn address: whatever a running node decides once per process (first use) meets a restart on either side of a rule change
+	c09Explore(c, r, 4, depth, c09Cross)
 }
+
+const c09Cross = -1
 
 func c09Block(b *drive.Builder, typ byte) {
 	h := b.Next()
@@ -63,16 +68,27 @@ func c09Block(b *drive.Builder, typ byte) {
 	s.OPRPayTo = kit.AddrStr(KM)
 	// one conversion per block; amount varies with the height so that entries are distinct
 	s.TX = []fake.Entry{b.Tx(KA, kit.Conversion(AddrA, "PEG", uint64(1e8+uint64(h)*1000), "pUSD"))}
+	if strings.HasPrefix(b.Era.Name, "activations-inside") {
+		s.TX = append(s.TX, b.Tx(KA, kit.Transfer(AddrA, "pUSD", uint64(1e8+uint64(h)), GlobalBurn())))
+	}
 	b.Add(s)
 }
 
 func c09Explore(c *core.Ctx, r *core.Result, period uint64, depth int, stage int) {
-	era := drive.EraStage(stage)
-	era.AvgPeriod = period
-	era.Name = fmt.Sprintf("pip10-avg%d", period)
-	if stage != drive.StPIP10 {
-		era.Name = "v202-no-averaging"
+	var era drive.Era
+	if stage == c09Cross {
+		era = drive.EraStage(drive.StV20Dev)
+		first := era.Base + 1 + 4 + uint32(period) // FundStd's four blocks and the rated prefix precede the window
+		era.V202, era.OneWaySmall, era.V204, era.V204Burn, era.PIP10 = first+1, first+1, first+2, first+3, first+4
+		era.Name = "activations-inside-window"
+	} else {
+		era = drive.EraStage(stage)
+		era.Name = fmt.Sprintf("pip10-avg%d", period)
+		if stage != drive.StPIP10 {
+			era.Name = "v202-no-averaging"
+		}
 	}
+	era.AvgPeriod = period
 	era.Apply()
 	root := drive.Scratch("c09")
 	defer os.RemoveAll(root)
@@ -89,6 +105,9 @@ func c09Explore(c *core.Ctx, r *core.Result, period uint64, depth int, stage int
 	}
 	if out := d0.SyncTo(b0.Chain.Tip(), drive.SyncOpts{}); !out.Reached {
 		panic("harness: C09 prefix: " + out.String())
+	}
+	if stage == c09Cross && b0.Next() != era.V202-1 {
+		panic(fmt.Sprintf("harness: C09 activations-inside-window: the window starts at %d, 2.0.2 at %d", b0.Next(), era.V202))
 	}
 	start := &c09State{prefix: "", dir: root + "/s0", cache: takeCache(d0), never: true}
 	d0.Close()
